@@ -50,6 +50,7 @@ type loopInfo struct {
 type Frame struct {
 	blockChans []string // channels of the blocking operation whose "site block" conditions are being evaluated
 	atExit     bool     // postconditions are being evaluated over the merged returns
+	sendNonBlocking bool // the send being executed is a case of a select with a default branch
 
 	vc       *VC
 	p        *Program
@@ -601,6 +602,7 @@ func (f *Frame) run(args []Val, state *State, guard string) ([]Val, *State, stri
 					f.checkLoopInv(li, b, si, false)
 				}
 			}
+			f.siteExit(b, si, s)
 		}
 	}
 	return f.mergeReturns()
